@@ -9,9 +9,11 @@ package props
 
 import (
 	"fmt"
+	upgradetypes "github.com/cosmos/cosmos-sdk/x/upgrade/types"
 	"math/big"
 	"os"
 	"sort"
+	"strings"
 	"time"
 
 	sdkmath "cosmossdk.io/math"
@@ -69,7 +71,11 @@ type GovOp struct {
 	K      string   `json:"k"` // register-erc20 | toggle-pair | set-precompiles
 	Addr   string   `json:"addr,omitempty"`
 	Active []string `json:"active,omitempty"`
+	Height int64    `json:"height,omitempty"`
 }
+
+// hUpgradeName: the latest software upgrade the application registers a handler for.
+const hUpgradeName = "v1.8.2"
 
 // BlockFeed is what replica A hands to the other replicas for one block.
 type BlockFeed struct {
@@ -92,7 +98,7 @@ var hKinds = []string{
 	"bad-nonce", "low-fee", "unjail", "send-module", "eth-fanout", "erc20-deploy", "erc20-mint", "erc20-transfer", "erc20-transfer", "erc20-convert",
 }
 
-var hGovKinds = []string{"register-erc20", "register-erc20", "toggle-pair", "precompile-off", "precompile-swap", "erc20-switch"}
+var hGovKinds = []string{"register-erc20", "register-erc20", "toggle-pair", "precompile-off", "precompile-swap", "erc20-switch", "register-coin", "upgrade-plan", "fork-schedule"}
 
 // hModuleTargets: module accounts a user might (try to) send coins to.
 var hModuleTargets = []string{"distribution", "bonded_tokens_pool", "not_bonded_tokens_pool", "fee_collector", "gov", "erc20", "coinomics"}
@@ -147,6 +153,10 @@ func genHistory(t *rapid.T, minBlocks, maxBlocks int, kinds []string) History {
 		h.Blocks[i+1].Dt = rapid.SampledFrom([]int64{1, 5, 30, 61}).Draw(t, "liquid-dt1")
 		h.Blocks[i].Txs = append([]HTx{{K: "vest-create", A: a, N: slot * 2, V: rapid.IntRange(0, 2).Draw(t, "liquid-v"), Amt: rapid.SampledFrom([]string{"2000000", "5000000", "50000000"}).Draw(t, "liquid-amt")}}, h.Blocks[i].Txs...)
 		h.Blocks[i+1].Txs = append([]HTx{{K: "lv-liquidate", A: (a + 1) % hUsers, N: slot * 2, V: rapid.IntRange(0, 3).Draw(t, "liquid-frac")}}, h.Blocks[i+1].Txs...)
+		if has("dao-fund") && rapid.Bool().Draw(t, "liquid-dao") {
+			// the holder puts (part of) the liquid token into the DAO: a DAO balance without any native coin
+			h.Blocks[i+1].Txs = append(h.Blocks[i+1].Txs, HTx{K: "dao-fund", A: (a + 1) % hUsers, V: rapid.SampledFrom([]int{0, 0, 1}).Draw(t, "liquid-dao-v"), Amt: "1000"})
+		}
 		h.Blocks[i+2].Txs = append([]HTx{{K: "lv-redeem", A: (a + 1) % hUsers, B: rapid.IntRange(0, hUsers-1).Draw(t, "liquid-to"), N: 0, V: rapid.IntRange(0, 2).Draw(t, "liquid-rfrac")}}, h.Blocks[i+2].Txs...)
 	}
 	if has("erc20-deploy") && nb >= 4 && rapid.IntRange(0, 2).Draw(t, "erc20-scenario") == 0 {
@@ -176,9 +186,28 @@ func genHistory(t *rapid.T, minBlocks, maxBlocks int, kinds []string) History {
 			h.Blocks[i+1].Txs = append(h.Blocks[i+1].Txs, HTx{K: "send-module", A: a, N: rapid.IntRange(0, 6).Draw(t, "switch-target"), Amt: "1000"})
 		}
 	}
+	if has("eth-create") && nb >= 3 && rapid.IntRange(0, 3).Draw(t, "fork-scenario") == 0 {
+		// EVM activity, then governance re-schedules a hard fork a few blocks ahead, then a transaction whose outcome
+		// depends on the fork rules; or: a module-owned token pair, then the software upgrade, then EVM activity
+		i := rapid.IntRange(0, nb-3).Draw(t, "fork-at")
+		a := rapid.IntRange(0, hUsers-1).Draw(t, "fork-a")
+		h.Blocks[i].Txs = append([]HTx{{K: "eth-send", A: a, B: (a + 1) % hUsers, Amt: "1", N: 0}}, h.Blocks[i].Txs...)
+		if rapid.Bool().Draw(t, "fork-or-upgrade") {
+			h.Blocks[i+1].Gov = append(h.Blocks[i+1].Gov, HTx{K: "fork-schedule", N: rapid.IntRange(0, 2).Draw(t, "fork-n")})
+			h.Blocks[i+2].Txs = append([]HTx{{K: "eth-create", A: a, N: 3}, {K: "eth-create", A: (a + 1) % hUsers, N: 0}}, h.Blocks[i+2].Txs...)
+			h.Blocks[i+1].Dt, h.Blocks[i+2].Dt = 5, 5
+		} else {
+			h.Blocks[i].Gov = append(h.Blocks[i].Gov, HTx{K: "register-coin"})
+			h.Blocks[i+1].Gov = append(h.Blocks[i+1].Gov, HTx{K: "upgrade-plan"})
+			h.Blocks[i+2].Txs = append(h.Blocks[i+2].Txs, HTx{K: "eth-send", A: a, B: (a + 2) % hUsers, Amt: "1", N: 1})
+			if i+3 < nb {
+				h.Blocks[i+3].Txs = append(h.Blocks[i+3].Txs, HTx{K: "eth-send", A: a, B: (a + 2) % hUsers, Amt: "1", N: 0})
+			}
+		}
+	}
 	if has("gov-vote") && nb >= 2 && rapid.IntRange(0, 1).Draw(t, "gov-scenario") == 0 {
 		i := rapid.IntRange(0, nb-2).Draw(t, "gov-at")
-		h.Blocks[i].Txs = append([]HTx{{K: "gov-submit", A: rapid.IntRange(0, hUsers-1).Draw(t, "gov-a"), Amt: "1000000", N: 1}}, h.Blocks[i].Txs...)
+		h.Blocks[i].Txs = append([]HTx{{K: "gov-submit", A: rapid.IntRange(0, hUsers-1).Draw(t, "gov-a"), Amt: "1000000", N: 1, V: rapid.IntRange(0, 1).Draw(t, "gov-two-denoms")}}, h.Blocks[i].Txs...)
 		h.Blocks[i+1].Dt = rapid.SampledFrom([]int64{1, 5, 30}).Draw(t, "gov-dt")
 		for k := 0; k < 2; k++ {
 			h.Blocks[i+1].Txs = append(h.Blocks[i+1].Txs, HTx{K: "gov-vote", A: rapid.IntRange(0, hUsers-1).Draw(t, "gov-voter"), V: rapid.IntRange(0, 3).Draw(t, "gov-opt")})
@@ -371,7 +400,15 @@ func (r *hRunner) buildTx(x HTx) []byte {
 	case "send":
 		return cosmos(A, 200000, banktypes.NewMsgSend(A.Addr, B.Addr, sdk.NewCoins(coin)))
 	case "send-module":
-		return cosmos(A, 200000, banktypes.NewMsgSend(A.Addr, authtypes.NewModuleAddress(hModuleTargets[x.N%len(hModuleTargets)]), sdk.NewCoins(coin)))
+		target := authtypes.NewModuleAddress(hModuleTargets[x.N%len(hModuleTargets)])
+		if x.V%2 == 1 {
+			// the same through a multi-send with an ordinary second output
+			half := sdk.NewCoins(sdk.NewCoin(chain.Denom, coin.Amount.QuoRaw(2)))
+			rest := sdk.NewCoins(coin).Sub(half...)
+			return cosmos(A, 300000, &banktypes.MsgMultiSend{Inputs: []banktypes.Input{banktypes.NewInput(A.Addr, sdk.NewCoins(coin))},
+				Outputs: []banktypes.Output{banktypes.NewOutput(B.Addr, half), banktypes.NewOutput(target, rest)}})
+		}
+		return cosmos(A, 200000, banktypes.NewMsgSend(A.Addr, target, sdk.NewCoins(coin)))
 	case "delegate":
 		return cosmos(A, 400000, stakingtypes.NewMsgDelegate(A.Addr, valAddr, coin))
 	case "undelegate", "redelegate", "withdraw":
@@ -413,7 +450,11 @@ func (r *hRunner) buildTx(x HTx) []byte {
 		op := chain.ValOp(x.V % n.Opts.NumVals)
 		return cosmos(op, 400000, slashingtypes.NewMsgUnjail(sdk.ValAddress(op.Addr)))
 	case "gov-submit":
-		m, err := govv1.NewMsgSubmitProposal(nil, sdk.NewCoins(coin), A.Addr.String(), "meta", fmt.Sprintf("title %d", x.N), "summary")
+		dep := sdk.NewCoins(coin)
+		if x.V%2 == 1 {
+			dep = dep.Add(sdk.NewInt64Coin("uxmpl", int64(1000+x.N))) // gov accepts any denomination as a deposit
+		}
+		m, err := govv1.NewMsgSubmitProposal(nil, dep, A.Addr.String(), "meta", fmt.Sprintf("title %d", x.N), "summary")
 		must(err)
 		return cosmos(A, 500000, m)
 	case "gov-deposit", "gov-vote":
@@ -434,7 +475,11 @@ func (r *hRunner) buildTx(x HTx) []byte {
 			}
 		}
 		if x.K == "gov-deposit" {
-			return cosmos(A, 400000, govv1.NewMsgDeposit(A.Addr, p.Id, sdk.NewCoins(coin)))
+			dep := sdk.NewCoins(coin)
+			if x.V%2 == 1 {
+				dep = dep.Add(sdk.NewInt64Coin("uxmpl", int64(500+x.N)))
+			}
+			return cosmos(A, 400000, govv1.NewMsgDeposit(A.Addr, p.Id, dep))
 		}
 		opt := []govv1.VoteOption{govv1.OptionYes, govv1.OptionNo, govv1.OptionNoWithVeto, govv1.OptionAbstain}[x.V%4]
 		return cosmos(A, 400000, govv1.NewMsgVote(A.Addr, p.Id, opt, ""))
@@ -524,6 +569,40 @@ func (r *hRunner) buildTx(x HTx) []byte {
 		}
 		return nil
 	case "dao-fund":
+		// with a liquid-vesting token if the user holds one (alone, or together with the native coin)
+		var liquid sdk.Coins
+		for _, c := range app.BankKeeper.GetAllBalances(ctx, A.Addr) {
+			if strings.HasPrefix(c.Denom, "aLIQUID") && c.Amount.IsPositive() {
+				liquid = sdk.NewCoins(sdk.NewCoin(c.Denom, c.Amount.QuoRaw(2).AddRaw(1)))
+				break
+			}
+		}
+		var unwrap []sdk.Msg
+		if liquid == nil {
+			// a liquidation hands the new token over in its ERC20 form: convert half of it back first (same tx)
+			for _, d := range app.LiquidVestingKeeper.GetAllDenoms(ctx) {
+				pair, found := app.Erc20Keeper.GetTokenPair(ctx, app.Erc20Keeper.GetTokenPairID(ctx, d.GetBaseDenom()))
+				if !found {
+					continue
+				}
+				if erc := app.Erc20Keeper.BalanceOf(ctx, erc20ABI(), pair.GetERC20Contract(), A.Hex); erc != nil && erc.Sign() > 0 {
+					part := sdkmath.NewIntFromBigInt(erc).QuoRaw(2).AddRaw(1)
+					unwrap = []sdk.Msg{erc20types.NewMsgConvertERC20(part, A.Addr, pair.GetERC20Contract(), A.Hex)}
+					liquid = sdk.NewCoins(sdk.NewCoin(d.GetBaseDenom(), part))
+					break
+				}
+			}
+		}
+		switch {
+		case liquid != nil && len(unwrap) > 0 && x.V%2 == 0:
+			return cosmos(A, 6000000, append(unwrap, ucdaotypes.NewMsgFund(liquid, A.Addr))...)
+		case liquid != nil && len(unwrap) > 0 && x.V == 1:
+			return cosmos(A, 6000000, append(unwrap, ucdaotypes.NewMsgFund(liquid.Add(coin), A.Addr))...)
+		case liquid != nil && x.V%2 == 0:
+			return cosmos(A, 300000, ucdaotypes.NewMsgFund(liquid, A.Addr))
+		case liquid != nil && x.V == 1:
+			return cosmos(A, 300000, ucdaotypes.NewMsgFund(liquid.Add(coin), A.Addr))
+		}
 		return cosmos(A, 300000, ucdaotypes.NewMsgFund(sdk.NewCoins(coin), A.Addr))
 	case "dao-transfer":
 		signer := A
@@ -542,6 +621,10 @@ func (r *hRunner) buildTx(x HTx) []byte {
 		to := B.Hex
 		return eth(&to, amt, nil, 21000)
 	case "eth-create":
+		if x.N%4 == 3 {
+			// runtime code starting with 0xEF: refused since the London rules (EIP-3541), accepted before them
+			return eth(nil, big.NewInt(0), evmasm.InitCode(append([]byte{0xEF}, storageRuntime()...)), 400000)
+		}
 		return eth(nil, big.NewInt(0), evmasm.InitCode(storageRuntime()), 400000)
 	case "eth-call":
 		if len(r.st.Contracts) == 0 {
@@ -648,6 +731,20 @@ func (r *hRunner) resolveGov(x HTx) *GovOp {
 		}
 	case "erc20-switch":
 		return &GovOp{K: "erc20-switch"}
+	case "register-coin":
+		if !app.Erc20Keeper.IsDenomRegistered(ctx, "uxmpl") {
+			return &GovOp{K: "register-coin"}
+		}
+	case "upgrade-plan":
+		// the software upgrade this binary carries a handler for, one block ahead
+		if h := app.UpgradeKeeper.GetDoneHeight(ctx, hUpgradeName); h == 0 {
+			if _, pending := app.UpgradeKeeper.GetUpgradePlan(ctx); !pending {
+				return &GovOp{K: "upgrade-plan", Height: ctx.BlockHeight() + 1}
+			}
+		}
+	case "fork-schedule":
+		// the London rules (and everything after them) are re-scheduled to start a few blocks from now
+		return &GovOp{K: "fork-schedule", Height: ctx.BlockHeight() + int64(2+x.N%3)}
 	case "precompile-off", "precompile-swap":
 		all := evmtypes.AvailableEVMExtensions
 		active := app.EvmKeeper.GetParams(ctx).ActivePrecompiles
@@ -703,6 +800,25 @@ func (r *hRunner) applyGov(g GovOp) {
 		_, err = app.Erc20Keeper.RegisterERC20(cctx, common.HexToAddress(g.Addr))
 	case "toggle-pair":
 		_, err = app.Erc20Keeper.ToggleConversion(cctx, g.Addr)
+	case "register-coin":
+		_, err = app.Erc20Keeper.RegisterCoin(cctx, banktypes.Metadata{Description: "example coin", Base: "uxmpl", Display: "xmpl", Name: "uxmpl", Symbol: "XMPL",
+			DenomUnits: []*banktypes.DenomUnit{{Denom: "uxmpl", Exponent: 0}, {Denom: "xmpl", Exponent: 6}}})
+	case "upgrade-plan":
+		err = app.UpgradeKeeper.ScheduleUpgrade(cctx, upgradetypes.Plan{Name: hUpgradeName, Height: g.Height})
+	case "fork-schedule":
+		p := app.EvmKeeper.GetParams(cctx)
+		at := sdkmath.NewInt(g.Height)
+		cc := p.ChainConfig
+		cc.LondonBlock = &at
+		for _, later := range []**sdkmath.Int{&cc.ArrowGlacierBlock, &cc.GrayGlacierBlock, &cc.MergeNetsplitBlock, &cc.ShanghaiBlock, &cc.CancunBlock} {
+			if *later != nil {
+				*later = &at
+			}
+		}
+		p.ChainConfig = cc
+		if err = p.Validate(); err == nil {
+			err = app.EvmKeeper.SetParams(cctx, p)
+		}
 	case "erc20-switch":
 		p := app.Erc20Keeper.GetParams(cctx)
 		p.EnableErc20 = !p.EnableErc20
@@ -823,7 +939,7 @@ func (r *hRunner) RunBlock(b HBlock, feed *BlockFeed) (BlockTrace, BlockFeed) {
 			}
 			before := len(tr.Txs)
 			deliver(x.K, bz)
-			if (x.K == "eth-create") && okFlags[before] {
+			if (x.K == "eth-create") && okFlags[before] && x.N%4 != 3 {
 				r.st.Contracts = append(r.st.Contracts, ethcrypto.CreateAddress(sender.Hex, preSeq))
 			}
 			if x.K == "erc20-deploy" && okFlags[before] {
